@@ -756,3 +756,145 @@ PREDICATES = {
     "perm_is_tuple_rank1": lambda case: (case.get("variant") == "permutation" and case.get("perm_form") == "tuple"
                                          and case["rank"] == 1),
 }
+
+
+# --------------------------------------------------------------------------
+# histories: re-parameterisations applied one after another to the same object
+# --------------------------------------------------------------------------
+# Single operations above always start from a freshly constructed (F-ordered, un-normalised) object.  Several
+# re-parameterisations leave the object in a state no constructor produces (C-ordered factor matrices after weight
+# absorption, permuted columns, unit weights, negated columns): this cell checks every step of a generated sequence
+# and, after each step, the vector / list / copy round trips on the state reached.
+
+
+@st.composite
+def _history_case(draw, tier):
+    c = draw(H.kt(tier, max_order=4 if tier == "quick" else 5))
+    N, R = len(c["shape"]), c["rank"]
+    steps = []
+    for _ in range(draw(st.sampled_from([1, 2, 2, 3, 3, 4, 5, 6]))):
+        kind = draw(st.sampled_from(["normalize", "normalize", "arrange", "arrange-perm", "fixsigns", "redistribute",
+                                     "neg", "scale", "permute-modes", "extract-all", "tolist-mode", "roundtrip-vec"]))
+        if kind == "normalize":
+            wf = draw(st.sampled_from(["none", "all"] + [str(k) for k in range(N)]))
+            steps.append(dict(op=kind, wf=wf, sort=draw(st.booleans()), normtype=draw(st.sampled_from(["1", "2", "inf"])),
+                              mode=draw(st.sampled_from([None] + list(range(N)))) if wf == "none" else None))
+        elif kind == "arrange":
+            steps.append(dict(op=kind, wf=draw(st.sampled_from([None] + list(range(N))))))
+        elif kind in ("arrange-perm", "extract-all"):
+            steps.append(dict(op=kind, perm=list(draw(st.permutations(range(R))))))
+        elif kind == "redistribute":
+            steps.append(dict(op=kind, mode=draw(st.integers(0, N - 1))))
+        elif kind == "scale":
+            steps.append(dict(op=kind, c=draw(st.sampled_from([2.0, -3.0, 0.5, 4]))))
+        elif kind == "permute-modes":
+            steps.append(dict(op=kind, perm=list(draw(st.permutations(range(N))))))
+        elif kind == "tolist-mode":
+            steps.append(dict(op=kind, mode=draw(st.sampled_from([None] + list(range(N))))))
+        else:
+            steps.append(dict(op=kind))
+        if kind == "roundtrip-vec":
+            steps[-1]["include_weights"] = draw(st.booleans())
+    c["steps"] = steps
+    return c
+
+
+@cell("C08/history", strategy=_history_case, quick=1500, thorough=20000, shards=(2, 12))
+def history(ctx, case):
+    K = gen.build_ktensor(case)
+    A = H.den_case(case)  # expected denoted array, updated for neg / scale / permute-modes
+    B = H.bound_case(case)
+    shape = list(case["shape"])
+    R = case["rank"]
+    N = len(shape)
+    ctx.label(*H.kt_labels(case), f"steps{len(case['steps'])}")
+    ctx.nt = len(case["steps"]) >= 2 and R >= 2 and N >= 2
+    seen_absorb = False
+    for k, s in enumerate(case["steps"]):
+        op = s["op"]
+        ctx.label("step-" + op)
+        n_terms = R * (N + 4) * (k + 2)
+        with ctx.sut(f"history.{op}"):
+            if op == "normalize":
+                wf = None if s["wf"] == "none" else ("all" if s["wf"] == "all" else int(s["wf"]))
+                K.normalize(weight_factor=wf, sort=s["sort"], normtype=H.NORMS[s["normtype"]], mode=s["mode"])
+                seen_absorb |= wf is not None
+            elif op == "arrange":
+                K.arrange(weight_factor=s["wf"])
+                seen_absorb |= s["wf"] is not None
+            elif op == "arrange-perm":
+                K.arrange(permutation=np.array(s["perm"]))
+            elif op == "fixsigns":
+                K.fixsigns()
+            elif op == "redistribute":
+                K.redistribute(s["mode"])
+                seen_absorb = True
+            elif op == "neg":
+                K = -K
+            elif op == "scale":
+                K = K * s["c"] if k % 2 else s["c"] * K
+            elif op == "permute-modes":
+                K = K.permute(np.array(s["perm"]))
+            elif op == "extract-all":
+                K = K.extract(np.array(s["perm"]))
+            elif op == "tolist-mode":
+                K = ttb.ktensor(K.tolist() if s["mode"] is None else K.tolist(s["mode"]))
+                seen_absorb = True
+            elif op == "roundtrip-vec":
+                v = K.tovec(include_weights=s["include_weights"])
+                K2 = ttb.ktensor.from_vector(v, tuple(shape), s["include_weights"])
+                if not s["include_weights"]:
+                    K2.weights = K.weights.copy()
+                K = K2
+        if op == "neg":
+            A = -A
+        elif op == "scale":
+            A = A * float(s["c"])
+            B = B * abs(float(s["c"]))
+        elif op == "permute-modes":
+            A = np.transpose(A, s["perm"])
+            B = np.transpose(B, s["perm"])
+            shape = [shape[i] for i in s["perm"]]
+        ctx.require(isinstance(K, ttb.ktensor), f"history:{op}:returns-ktensor", type(K).__name__)
+        probs = H.kt_ok(K, shape, R)
+        ctx.require(not probs, f"history:{op}:wellformed", probs)
+        got = ref.den(K)
+        ctx.require(ref.same_bound(got, A, B, n_terms), f"history:{op}:denotes-the-same-array", ref.diff_info(got, A))
+        # ---- observations on the state reached (none of them changes K)
+        W = np.array(K.weights, dtype=float)
+        F = [np.array(f, dtype=float) for f in K.factor_matrices]
+        for flag in (True, False):
+            with ctx.sut("history.tovec"):
+                v = K.tovec(include_weights=flag)
+            expect = np.concatenate(([W] if flag else []) + [f.flatten(order="F") for f in F])
+            ok = isinstance(v, np.ndarray) and v.shape == expect.shape and np.array_equal(v, expect)
+            ctx.check(ok, "history:tovec-layout-weights-then-columns", f"after {op}")
+            if ok:
+                with ctx.sut("history.from_vector"):
+                    K2 = ttb.ktensor.from_vector(v.copy(), tuple(shape), flag)
+                same = all(np.array_equal(a, b) for a, b in zip(K2.factor_matrices, F))
+                ctx.check(same and (not flag or np.array_equal(K2.weights, W)), "history:from_vector-reproduces-object",
+                          f"after {op}")
+        with ctx.sut("history.copy"):
+            C = K.copy()
+        with ctx.sut("history.isequal"):
+            ctx.check(C.isequal(K) and K.isequal(C), "history:copy-isequal", f"after {op}")
+        ctx.check(all(np.array_equal(a, b) for a, b in zip(C.factor_matrices, F)) and np.array_equal(C.weights, W),
+                  "history:copy-attributes-equal", f"after {op}")
+        if N >= 2 or True:
+            with ctx.sut("history.full"):
+                D = K.full()
+            if isinstance(D, ttb.tensor):
+                ctx.check(ref.same_bound(ref.den(D), A, B, n_terms + R), "history:full-denotes-the-same-array",
+                          f"after {op}: " + ref.diff_info(ref.den(D), A))
+        with ctx.sut("history.tolist"):
+            L = K.tolist()
+        if isinstance(L, (list, tuple)) and len(L) == N and all(isinstance(x, np.ndarray) for x in L):
+            gotL = ref.den_kruskal(np.ones(R), L) if all(x.shape == (n, R) for x, n in zip(L, shape)) else None
+            ctx.check(gotL is not None and ref.same_bound(gotL, A, B, n_terms + R * N + 8),
+                      "history:tolist-denotes-the-same-array", f"after {op}")
+        # the observations must not have changed the object
+        ctx.check(all(np.array_equal(a, b) for a, b in zip(K.factor_matrices, F)) and np.array_equal(K.weights, W),
+                  "history:observations-leave-object-unchanged", f"after {op}")
+    if seen_absorb:
+        ctx.label("weights-absorbed-somewhere")
